@@ -16,7 +16,8 @@ import (
 )
 
 var c11Kinds = []string{"deal-with-unknown-dealer-index", "deal-from-second-polynomial", "deal-encrypted-to-wrong-key", "ciphertext-truncated", "ciphertext-garbled",
-	"commitments-one-coefficient-altered", "commitments-too-short", "commitments-too-long", "response-with-complaint", "deal-not-a-deal", "deal-with-another-participants-dealer-index"}
+	"commitments-one-coefficient-altered", "commitments-too-short", "commitments-too-long", "response-with-complaint", "deal-not-a-deal", "deal-with-another-participants-dealer-index",
+	"commitments-of-another-polynomial-that-agrees-at-every-honest-index"}
 
 type rngReader struct{ r interface{ Next() uint64 } }
 
@@ -85,6 +86,47 @@ func runC11(w *World, tier string) (bool, interface{}) {
 				}
 				other := (k + 1) % len(commits)
 				commits[k] = commits[other]
+			case "commitments-of-another-polynomial-that-agrees-at-every-honest-index":
+				// the dealer deals from P and publishes the commitments of Q = P + c*Z, where Z
+				// vanishes at the index of every other participant: each share it hands out lies
+				// on the published polynomial, yet every coefficient (the secret included)
+				// differs from what the deals carry. Z has degree n-1, so this needs t = n;
+				// otherwise one published coefficient is altered as in the plain kind
+				if len(commits) != n {
+					commits[len(commits)-1] = commits[0]
+					break
+				}
+				z := []kyber.Scalar{suite.Scalar().One()}
+				for p := 0; p < n; p++ {
+					if p == D {
+						continue
+					}
+					root := suite.Scalar().SetInt64(int64(p + 1))
+					nz := make([]kyber.Scalar, len(z)+1)
+					for k := range nz {
+						nz[k] = suite.Scalar().Zero()
+					}
+					for k, zk := range z {
+						nz[k+1] = suite.Scalar().Add(nz[k+1], zk)
+						nz[k] = suite.Scalar().Sub(nz[k], suite.Scalar().Mul(zk, root))
+					}
+					z = nz
+				}
+				cc := suite.Scalar().SetInt64(int64(2 + w.Tape.Choose(1000, "shiftFactor")))
+				ok := len(z) == len(commits)
+				for k := 0; ok && k < len(commits); k++ {
+					pt := suite.Point()
+					if pt.UnmarshalBinary(commits[k]) != nil {
+						ok = false
+						break
+					}
+					pt = suite.Point().Add(pt, suite.Point().Mul(suite.Scalar().Mul(cc, z[k]), nil))
+					commits[k], _ = pt.MarshalBinary()
+				}
+				if !ok {
+					return result
+				}
+				w.Stats.Fault("byz-dealer-published-polynomial-agrees-at-honest-indices")
 			case "commitments-too-short":
 				commits = commits[:len(commits)-1]
 			case "commitments-too-long":
